@@ -489,3 +489,328 @@ Proof.
   - destruct fr; reflexivity.
   - unfold is_sep in Esep. unfold is2. rewrite Hfr, Hwz. lia.
 Qed.
+
+(** completeness of the scanning phase: a string of the grammar with valid time fields is scanned *)
+Lemma scan_pure_complete s f rest : utf8_valid s = true ->
+  recognise_prefix s = Some (f, rest) -> valid_nodate f = true ->
+  scan_pure s = POk (parsed_of f, rest).
+Proof.
+  intros Hv H Hval. unfold recognise_prefix in H.
+  rewrite take4_four in H. destruct (four_digits s) as [[s1 y]|] eqn:E1; [|discriminate]. cbn [obind] in H.
+  destruct (four_digits_valid _ _ _ Hv E1) as [Hv1 Hy].
+  rewrite expect_char in H. destruct (char_pure s1 45) as [s2|] eqn:E2; [|discriminate]. cbn [obind] in H.
+  pose proof (fun pf => char_pure_valid _ _ _ Hv1 pf E2) as Hv2; specialize (Hv2 ltac:(lia)).
+  rewrite take2_two in H. destruct (two_digits s2) as [[s3 mo]|] eqn:E3; [|discriminate]. cbn [obind] in H.
+  destruct (two_digits_valid _ _ _ Hv2 E3) as [Hv3 Hmo].
+  rewrite expect_char in H. destruct (char_pure s3 45) as [s4|] eqn:E4; [|discriminate]. cbn [obind] in H.
+  pose proof (fun pf => char_pure_valid _ _ _ Hv3 pf E4) as Hv4; specialize (Hv4 ltac:(lia)).
+  rewrite take2_two in H. destruct (two_digits s4) as [[s5 d]|] eqn:E5; [|discriminate]. cbn [obind] in H.
+  destruct (two_digits_valid _ _ _ Hv4 E5) as [Hv5 Hd].
+  destruct s5 as [|sepc s6]; [discriminate|].
+  destruct (is_sep sepc) eqn:Esep; [|discriminate]. cbn [negb] in H.
+  assert (Hv6 : utf8_valid s6 = true) by (apply (sep_pure_valid (sepc :: s6)); [exact Hv5|rewrite sep_pure_cons, Esep; reflexivity]).
+  rewrite take2_two in H. destruct (two_digits s6) as [[s7 h]|] eqn:E7; [|discriminate]. cbn [obind] in H.
+  destruct (two_digits_valid _ _ _ Hv6 E7) as [Hv7 Hh].
+  rewrite expect_char in H. destruct (char_pure s7 58) as [s8|] eqn:E8; [|discriminate]. cbn [obind] in H.
+  pose proof (fun pf => char_pure_valid _ _ _ Hv7 pf E8) as Hv8; specialize (Hv8 ltac:(lia)).
+  rewrite take2_two in H. destruct (two_digits s8) as [[s9 mi]|] eqn:E9; [|discriminate]. cbn [obind] in H.
+  destruct (two_digits_valid _ _ _ Hv8 E9) as [Hv9 Hmi].
+  rewrite expect_char in H. destruct (char_pure s9 58) as [s10|] eqn:E10; [|discriminate]. cbn [obind] in H.
+  pose proof (fun pf => char_pure_valid _ _ _ Hv9 pf E10) as Hv10; specialize (Hv10 ltac:(lia)).
+  rewrite take2_two in H. destruct (two_digits s10) as [[s11 sec]|] eqn:E11; [|discriminate]. cbn [obind] in H.
+  destruct (two_digits_valid _ _ _ Hv10 E11) as [Hv11 Hsec].
+  destruct (rec_frac s11) as [[fr s12]|] eqn:E12; [|discriminate]. cbn [obind] in H.
+  destruct (rec_zone s12) as [[z s13]|] eqn:E13; [|discriminate]. cbn [obind] in H.
+  injection H as <- <-.
+  unfold valid_nodate in Hval. cbn [f_year f_month f_day f_sep f_hour f_minute f_second f_frac f_zone] in Hval.
+  pose proof (rec_zone_wf _ _ _ E13) as Hwz.
+  unfold scan_pure, parsed_of. cbn [f_year f_month f_day f_sep f_hour f_minute f_second f_frac f_zone].
+  rewrite E1. cbn [pb]. rewrite set_year_new by exact Hy. cbn [pb].
+  rewrite E2. cbn [pb]. rewrite E3. cbn [pb]. rewrite set_month_ok by reflexivity.
+  replace ((1 <=? mo) && (mo <=? 12)) with true by lia. cbn [pb p_year p_month p_day p_hour_div_12 p_hour_mod_12 p_minute p_second p_nanosecond p_offset].
+  rewrite E4. cbn [pb]. rewrite E5. cbn [pb]. rewrite set_day_ok by reflexivity.
+  replace ((1 <=? d) && (d <=? 31)) with true by lia. cbn [pb p_year p_month p_day p_hour_div_12 p_hour_mod_12 p_minute p_second p_nanosecond p_offset].
+  rewrite sep_pure_cons, Esep. cbn [pb]. rewrite E7. cbn [pb]. rewrite set_hour_pure_ok by reflexivity.
+  replace ((0 <=? h) && (h <=? 23)) with true by lia. cbn [pb p_year p_month p_day p_hour_div_12 p_hour_mod_12 p_minute p_second p_nanosecond p_offset].
+  rewrite E8. cbn [pb]. rewrite E9. cbn [pb]. rewrite set_minute_ok by reflexivity.
+  replace ((0 <=? mi) && (mi <=? 59)) with true by lia. cbn [pb p_year p_month p_day p_hour_div_12 p_hour_mod_12 p_minute p_second p_nanosecond p_offset].
+  rewrite E10. cbn [pb]. rewrite E11. cbn [pb]. rewrite set_second_ok by reflexivity.
+  replace ((0 <=? sec) && (sec <=? 60)) with true by lia. cbn [pb p_year p_month p_day p_hour_div_12 p_hour_mod_12 p_minute p_second p_nanosecond p_offset].
+  match goal with |- context [frac_pure ?q s11] => destruct (frac_rel q s11 Hv11 eq_refl) as [e Hf]; rewrite Hf; clear Hf end.
+  rewrite E12. cbn [pb].
+  destruct (tz_rel s12) as [e' Hz]. rewrite Hz, E13. clear Hz.
+  assert (Hzo : zone_min_ok z = true /\ -86340 <= zone_offset z <= 86340).
+  { destruct z as [c|sg hh mm]; [cbn; lia|]. cbn [zone_min_ok zone_offset valid_zone wf_zone] in *. unfold is2 in Hwz.
+    destruct (sg =? 0); lia. }
+  destruct Hzo as [Hzm Hzo]. rewrite Hzm. cbn [pb].
+  change (- MAX_RFC3339_OFFSET) with (-86340). change MAX_RFC3339_OFFSET with 86340.
+  replace ((-86340 <=? zone_offset z) && (zone_offset z <=? 86340)) with true by lia. cbn [negb].
+  rewrite set_offset_ok by (try lia; destruct fr; reflexivity). cbn [pb].
+  destruct fr; reflexivity.
+Qed.
+
+(** * Step 3: resolution of the parsed fields (narrow Parsed::to_datetime) *)
+Lemma frac_value_bound ds : forall k, forallb is_dig ds = true -> 0 <= frac_value ds k < 10 ^ Z.of_nat k.
+Proof.
+  intros k. revert ds. induction k as [|k IH]; intros ds Hd.
+  - cbn [frac_value]. change (10 ^ Z.of_nat 0) with 1. lia.
+  - replace (Z.of_nat (S k)) with (Z.succ (Z.of_nat k)) by lia. rewrite Z.pow_succ_r by lia.
+    assert (0 < 10 ^ Z.of_nat k) by (apply Z.pow_pos_nonneg; lia).
+    destruct ds as [|d r]; cbn [frac_value]; [lia|].
+    cbn [forallb] in Hd. apply andb_prop in Hd. destruct Hd as [Hd Hr]. unfold is_dig in Hd.
+    specialize (IH r Hr). set (P := 10 ^ Z.of_nat k) in *. clearbody P.
+    assert (0 <= d * P <= 9 * P) by (split; [apply Z.mul_nonneg_nonneg; lia|apply Z.mul_le_mono_nonneg_r; lia]).
+    lia.
+Qed.
+Lemma frac_nanos_bound ds : forallb is_dig ds = true -> 0 <= frac_nanos ds <= 999999999.
+Proof. intros H. pose proof (frac_value_bound ds 9 H) as B. change (10 ^ Z.of_nat 9) with 1000000000 in B. unfold frac_nanos. lia. Qed.
+
+Definition time_of (f : fields) : Time.ntime :=
+  Time.mk_time (f_hour f * 3600 + f_minute f * 60 + (if f_second f =? 60 then 59 else f_second f))
+               (frac_nanos (f_frac f) + (if f_second f =? 60 then 1000000000 else 0)).
+
+Lemma to_naive_time_ok f : wf f = true -> valid_nodate f = true ->
+  to_naive_time (parsed_of f) = Val (POk (time_of f)).
+Proof.
+  intros Hw Hv. unfold wf, is2 in Hw. unfold valid_nodate in Hv.
+  assert (Hfr : forallb is_dig (f_frac f) = true).
+  { apply andb_prop in Hw. destruct Hw as [Hw _]. apply andb_prop in Hw. exact (proj2 Hw). }
+  pose proof (frac_nanos_bound _ Hfr) as Hn.
+  assert (Hr : 0 <= f_hour f <= 23 /\ 0 <= f_minute f <= 59 /\ 0 <= f_second f <= 60).
+  { clear Hn Hfr. repeat (apply andb_prop in Hw; destruct Hw as [Hw ?]). repeat (apply andb_prop in Hv; destruct Hv as [Hv ?]). lia. }
+  clear Hw Hv.
+  unfold to_naive_time, parsed_of, time_of.
+  cbn [p_year p_month p_day p_hour_div_12 p_hour_mod_12 p_minute p_second p_nanosecond p_offset].
+  set (h := f_hour f) in *. set (mi := f_minute f) in *. set (sec := f_second f) in *.
+  replace ((0 <=? (if h <=? 11 then 0 else 1)) && ((if h <=? 11 then 0 else 1) <=? 1)) with true by (destruct (h <=? 11); reflexivity).
+  cbn [pbind bind pok].
+  replace ((0 <=? (if h <=? 11 then h else h - 12)) && ((if h <=? 11 then h else h - 12) <=? 11)) with true by (destruct (h <=? 11) eqn:E; lia).
+  cbn [pbind bind pok].
+  unfold mul_u32, add_u32.
+  rewrite chk_in by (unfold in_u32, in_range, u32_max; destruct (h <=? 11); lia). cbn [bind].
+  rewrite chk_in by (unfold in_u32, in_range, u32_max; destruct (h <=? 11) eqn:E; lia). cbn [bind].
+  replace ((if h <=? 11 then 0 else 1) * 12 + (if h <=? 11 then h else h - 12)) with h by (destruct (h <=? 11) eqn:E; lia).
+  replace ((0 <=? mi) && (mi <=? 59)) with true by lia. cbn [pbind bind pok].
+  destruct (sec =? 60) eqn:E60.
+  - replace ((0 <=? sec) && (sec <=? 59)) with false by lia. cbn [pbind bind pok].
+    assert (Hx : (let+ extra := match (match f_frac f with [] => None | _ :: _ => Some (frac_nanos (f_frac f)) end) with
+                   | Some v => if (0 <=? v) && (v <=? 999999999) then pok v else perr_ OutOfRange
+                   | None => pok 0 end in pok extra) = pok (frac_nanos (f_frac f))).
+    { destruct (f_frac f) eqn:Ef; [reflexivity|]. rewrite <- Ef in *.
+      replace ((0 <=? frac_nanos (f_frac f)) && (frac_nanos (f_frac f) <=? 999999999)) with true by lia. reflexivity. }
+    destruct (f_frac f) as [|d0 r0] eqn:Ef.
+    + cbn [pbind bind pok]. rewrite chk_in by (unfold in_u32, in_range, u32_max; lia). cbn [bind].
+      unfold Time.from_hms_nano_opt, mul_u32, add_u32.
+      replace (((h >=? 24) || (mi >=? 60) || (59 >=? 60)) || ((1000000000 + 0 >=? 1000000000) && negb (59 =? 59)) || (1000000000 + 0 >=? 2000000000)) with false by lia.
+      rewrite chk_in by (unfold in_u32, in_range, u32_max; lia). cbn [bind].
+      rewrite chk_in by (unfold in_u32, in_range, u32_max; lia). cbn [bind].
+      rewrite chk_in by (unfold in_u32, in_range, u32_max; lia). cbn [bind].
+      rewrite chk_in by (unfold in_u32, in_range, u32_max; lia). cbn [bind].
+      unfold pok. apply f_equal, f_equal. change (frac_nanos []) with 0. f_equal; lia.
+    + rewrite <- Ef in *. clear Hx.
+      replace ((0 <=? frac_nanos (f_frac f)) && (frac_nanos (f_frac f) <=? 999999999)) with true by lia.
+      cbn [pbind bind pok]. rewrite chk_in by (unfold in_u32, in_range, u32_max; lia). cbn [bind].
+      unfold Time.from_hms_nano_opt, mul_u32, add_u32.
+      set (n := 1000000000 + frac_nanos (f_frac f)) in *.
+      replace (((h >=? 24) || (mi >=? 60) || (59 >=? 60)) || ((n >=? 1000000000) && negb (59 =? 59)) || (n >=? 2000000000)) with false by lia.
+      rewrite chk_in by (unfold in_u32, in_range, u32_max; lia). cbn [bind].
+      rewrite chk_in by (unfold in_u32, in_range, u32_max; lia). cbn [bind].
+      rewrite chk_in by (unfold in_u32, in_range, u32_max; lia). cbn [bind].
+      rewrite chk_in by (unfold in_u32, in_range, u32_max; lia). cbn [bind].
+      unfold pok. apply f_equal, f_equal. f_equal; lia.
+  - replace ((0 <=? sec) && (sec <=? 59)) with true by lia. cbn [pbind bind pok].
+    destruct (f_frac f) as [|d0 r0] eqn:Ef.
+    + cbn [pbind bind pok]. rewrite chk_in by (unfold in_u32, in_range, u32_max; lia). cbn [bind].
+      unfold Time.from_hms_nano_opt, mul_u32, add_u32.
+      replace (((h >=? 24) || (mi >=? 60) || (sec >=? 60)) || ((0 + 0 >=? 1000000000) && negb (sec =? 59)) || (0 + 0 >=? 2000000000)) with false by lia.
+      rewrite chk_in by (unfold in_u32, in_range, u32_max; lia). cbn [bind].
+      rewrite chk_in by (unfold in_u32, in_range, u32_max; lia). cbn [bind].
+      rewrite chk_in by (unfold in_u32, in_range, u32_max; lia). cbn [bind].
+      rewrite chk_in by (unfold in_u32, in_range, u32_max; lia). cbn [bind].
+      unfold pok. apply f_equal, f_equal. change (frac_nanos []) with 0. f_equal; lia.
+    + rewrite <- Ef in *.
+      replace ((0 <=? frac_nanos (f_frac f)) && (frac_nanos (f_frac f) <=? 999999999)) with true by lia.
+      cbn [pbind bind pok]. rewrite chk_in by (unfold in_u32, in_range, u32_max; lia). cbn [bind].
+      unfold Time.from_hms_nano_opt, mul_u32, add_u32.
+      set (n := 0 + frac_nanos (f_frac f)) in *.
+      replace (((h >=? 24) || (mi >=? 60) || (sec >=? 60)) || ((n >=? 1000000000) && negb (sec =? 59)) || (n >=? 2000000000)) with false by lia.
+      rewrite chk_in by (unfold in_u32, in_range, u32_max; lia). cbn [bind].
+      rewrite chk_in by (unfold in_u32, in_range, u32_max; lia). cbn [bind].
+      rewrite chk_in by (unfold in_u32, in_range, u32_max; lia). cbn [bind].
+      rewrite chk_in by (unfold in_u32, in_range, u32_max; lia). cbn [bind].
+      unfold pok. apply f_equal, f_equal. f_equal; lia.
+Qed.
+
+(** calendar arithmetic used below (pure Spec/Gregorian.v facts) *)
+Lemma ordinal_bound y m d : valid_ymd y m d = true -> 1 <= ordinal_of_md (is_leap y) m d <= 366.
+Proof.
+  unfold valid_ymd, ordinal_of_md. intros H.
+  assert (Hm : m = 1 \/ m = 2 \/ m = 3 \/ m = 4 \/ m = 5 \/ m = 6 \/ m = 7 \/ m = 8 \/ m = 9 \/ m = 10 \/ m = 11 \/ m = 12) by lia.
+  destruct (is_leap y);
+  destruct Hm as [->|[->|[->|[->|[->|[->|[->|[->|[->|[->|[->| ->]]]]]]]]]]];
+  match goal with |- context [cum_days ?l ?m] => let v := eval vm_compute in (cum_days l m) in change (cum_days l m) with v end;
+  match type of H with context [days_in_month ?l ?m] => let v := eval vm_compute in (days_in_month l m) in change (days_in_month l m) with v in H end;
+  lia.
+Qed.
+Definition DAY_LO := -366.      (* 31 December of year -1 *)
+Definition DAY_HI := 3652061.   (* 2 January of year 10000 *)
+Lemma dn_range y m d : 0 <= y <= 9999 -> valid_ymd y m d = true -> DAY_LO < dn_of_ymd y m d < DAY_HI.
+Proof.
+  intros Hy Hv. pose proof (ordinal_bound y m d Hv) as Ho.
+  unfold dn_of_ymd, dn_of_yo, days_before_year, DAY_LO, DAY_HI. cbv zeta.
+  set (o := ordinal_of_md (is_leap y) m d) in *. clearbody o. lia.
+Qed.
+
+Definition tuple_of (a : dtz) : Z * Z * Z * Z * Z :=
+  (Date.d_year (nd_date (dz_utc a)), Date.d_ordinal (nd_date (dz_utc a)),
+   Time.tsecs (nd_time (dz_utc a)), Time.tfrac (nd_time (dz_utc a)), dz_off a).
+
+(** [good dt n]: the NaiveDate value [dt] (packed word) is the day with number [n].  The facts
+    below are the part of C01 (calendar forms agree) this property rests on, for the years an
+    RFC 3339 string can name and one day around them. *)
+Record date_facts (good : Z -> Z -> Prop) : Prop := {
+  df_year : forall dt n, good dt n -> Date.d_year dt = year_of_dn n;
+  df_ordinal : forall dt n, good dt n -> Date.d_ordinal dt = ordinal_of_dn n;
+  df_month : forall dt n, good dt n -> DAY_LO <= n <= DAY_HI ->
+    Date.d_month dt = Val (fst (md_of_ordinal (is_leap (year_of_dn n)) (ordinal_of_dn n)));
+  df_day : forall dt n, good dt n -> DAY_LO <= n <= DAY_HI ->
+    Date.d_day dt = Val (snd (md_of_ordinal (is_leap (year_of_dn n)) (ordinal_of_dn n)));
+  df_ymd_some : forall y m d, 0 <= y <= 9999 -> 1 <= m <= 12 -> 1 <= d <= 31 -> valid_ymd y m d = true ->
+    exists dt, Date.from_ymd_opt y m d = Val (Some dt) /\ good dt (dn_of_ymd y m d);
+  df_ymd_none : forall y m d, 0 <= y <= 9999 -> 1 <= m <= 12 -> 1 <= d <= 31 -> valid_ymd y m d = false ->
+    Date.from_ymd_opt y m d = Val None;
+  df_ndce : forall dt n, good dt n -> DAY_LO <= n <= DAY_HI -> Date.num_days_from_ce dt = Val n;
+  df_pred : forall dt n, good dt n -> DAY_LO < n <= DAY_HI ->
+    exists dt', Date.pred_opt dt = Val (Some dt') /\ good dt' (n - 1);
+  df_succ : forall dt n, good dt n -> DAY_LO <= n < DAY_HI ->
+    exists dt', Date.succ_opt dt = Val (Some dt') /\ good dt' (n + 1) }.
+
+Section WithDateFacts.
+  Variable good : Z -> Z -> Prop.
+  Hypothesis DF : date_facts good.
+  Let good_year := df_year good DF.
+  Let good_ordinal := df_ordinal good DF.
+  Let ymd_some := df_ymd_some good DF.
+  Let ymd_none := df_ymd_none good DF.
+  Let good_ndce := df_ndce good DF.
+  Let good_pred := df_pred good DF.
+  Let good_succ := df_succ good DF.
+
+  Lemma to_datetime_ok f : wf f = true -> valid_nodate f = true ->
+    if valid_ymd (f_year f) (f_month f) (f_day f)
+    then exists a, to_datetime (parsed_of f) = Val (POk a) /\ tuple_of a = denote f
+    else to_datetime (parsed_of f) = Val (PErr OutOfRange).
+  Proof.
+    intros Hw Hv. pose proof (to_naive_time_ok f Hw Hv) as Ht.
+    assert (Hfr : forallb is_dig (f_frac f) = true).
+    { unfold wf in Hw. apply andb_prop in Hw. destruct Hw as [Hw _]. apply andb_prop in Hw. exact (proj2 Hw). }
+    pose proof (frac_nanos_bound _ Hfr) as Hn.
+    assert (Hr : 0 <= f_year f <= 9999 /\ 1 <= f_month f <= 12 /\ 1 <= f_day f <= 31 /\
+                 0 <= f_hour f <= 23 /\ 0 <= f_minute f <= 59 /\ 0 <= f_second f <= 60 /\
+                 -86340 <= zone_offset (f_zone f) <= 86340).
+    { clear Ht Hn Hfr. unfold wf, is2 in Hw. unfold valid_nodate in Hv.
+      repeat (apply andb_prop in Hw; destruct Hw as [Hw ?]). repeat (apply andb_prop in Hv; destruct Hv as [Hv ?]).
+      destruct (f_zone f) as [c|sg hh mm]; [cbn [zone_offset]; lia|].
+      cbn [zone_offset valid_zone wf_zone] in *. unfold is2 in *. destruct (sg =? 0); lia. }
+    destruct Hr as (Hy & Hmo & Hd & Hh & Hmi & Hs & Hoff).
+    unfold to_datetime. change (p_offset (parsed_of f)) with (Some (zone_offset (f_zone f))). cbv beta iota.
+    set (off := zone_offset (f_zone f)) in *.
+    unfold to_naive_datetime_with_offset. rewrite Ht.
+    unfold to_naive_date. change (p_year (parsed_of f)) with (Some (f_year f)).
+    change (p_month (parsed_of f)) with (Some (f_month f)). change (p_day (parsed_of f)) with (Some (f_day f)). cbv beta iota.
+    destruct (valid_ymd (f_year f) (f_month f) (f_day f)) eqn:Evd.
+    2:{ rewrite (ymd_none _ _ _ Hy Hmo Hd Evd). reflexivity. }
+    destruct (ymd_some _ _ _ Hy Hmo Hd Evd) as (dt & Hdt & Hgood). rewrite Hdt.
+    pose proof (dn_range _ _ _ Hy Evd) as Hdn. set (n := dn_of_ymd (f_year f) (f_month f) (f_day f)) in *.
+    unfold DAY_LO, DAY_HI in *.
+    cbn [bind pbind pok]. unfold dt_timestamp. cbn [nd_date nd_time].
+    rewrite (good_ndce dt n Hgood) by (unfold DAY_LO, DAY_HI; lia). cbn [bind].
+    unfold time_of, Time.num_seconds_from_midnight. cbn [Time.tsecs Time.tfrac].
+    set (ls := f_hour f * 3600 + f_minute f * 60 + (if f_second f =? 60 then 59 else f_second f)) in *.
+    assert (Hls : 0 <= ls < 86400) by (subst ls; destruct (f_second f =? 60) eqn:E; lia).
+    set (fr := frac_nanos (f_frac f) + (if f_second f =? 60 then 1000000000 else 0)) in *.
+    change Gen.DateTimeConsts.UNIX_EPOCH_DAY with 719163.
+    unfold sub_i64, mul_i64, add_i64.
+    rewrite chk_in by (unfold in_i64, in_range, i64_min, i64_max; lia). cbn [bind].
+    rewrite chk_in by (unfold in_i64, in_range, i64_min, i64_max; lia). cbn [bind].
+    rewrite chk_in by (unfold in_i64, in_range, i64_min, i64_max; lia). cbn [bind].
+    rewrite chk_in by (unfold in_i64, in_range, i64_min, i64_max; lia). cbn [bind pbind pok].
+    unfold east_opt. change Gen.DateTimeConsts.FO_EAST_LO with (-86400). change Gen.DateTimeConsts.FO_EAST_HI with 86400.
+    replace ((-86400 <? off) && (off <? 86400)) with true by lia.
+    unfold from_local_datetime, ndt_checked_sub_offset, Time.overflowing_sub_offset. cbn [nd_date nd_time Time.tsecs Time.tfrac].
+    rewrite as_i32_id by (unfold in_i32, in_range, i32_min, i32_max; lia).
+    unfold sub_i32. rewrite chk_in by (unfold in_i32, in_range, i32_min, i32_max; lia). cbn [bind].
+    rewrite div_euclid_pos, rem_euclid_pos by lia.
+    set (t := ls - off) in *.
+    assert (Hq : -1 <= t / 86400 <= 1) by lia.
+    rewrite chk_in by (unfold in_i32, in_range, i32_min, i32_max; lia). cbn [bind].
+    replace (in_i32 (t / 86400)) with true by (unfold in_i32, in_range, i32_min, i32_max; lia). cbn [bind].
+    rewrite as_u32_id by (unfold in_u32, in_range, u32_max; lia).
+    unfold shift_date_checked.
+    assert (Hden : forall dt', good dt' (n + t / 86400) ->
+      tuple_of (mk_dtz (mk_ndt dt' (Time.mk_time (t mod 86400) fr)) off) = denote f).
+    { intros dt' Hg. unfold tuple_of, denote. cbn [dz_utc dz_off nd_date nd_time Time.tsecs Time.tfrac].
+      rewrite (good_year _ _ Hg), (good_ordinal _ _ Hg). unfold year_of_dn, ordinal_of_dn.
+      fold off. fold n. fold ls. fold t.
+      destruct (yo_of_dn (n + t / 86400)) as [yy oo]. reflexivity. }
+    destruct (t / 86400 =? -1) eqn:Em1.
+    - destruct (good_pred dt n Hgood) as (dt' & Hp & Hg'); [unfold DAY_LO, DAY_HI; lia|].
+      rewrite Hp. cbn [obind bind]. eexists. split; [reflexivity|]. apply Hden.
+      replace (n + t / 86400) with (n - 1) by lia. exact Hg'.
+    - destruct (t / 86400 =? 1) eqn:E1.
+      + destruct (good_succ dt n Hgood) as (dt' & Hp & Hg'); [unfold DAY_LO, DAY_HI; lia|].
+        rewrite Hp. cbn [obind bind]. eexists. split; [reflexivity|]. apply Hden.
+        replace (n + t / 86400) with (n + 1) by lia. exact Hg'.
+      + cbn [obind bind]. eexists. split; [reflexivity|]. apply Hden.
+        replace (n + t / 86400) with n by lia. exact Hgood.
+  Qed.
+
+  Lemma valid_split f : valid_nodate f = true -> valid f = valid_ymd (f_year f) (f_month f) (f_day f).
+  Proof.
+    unfold valid_nodate, valid. intros H. repeat (apply andb_prop in H; destruct H as [H ?]).
+    destruct (valid_ymd (f_year f) (f_month f) (f_day f)); [|reflexivity].
+    repeat match goal with H : _ = true |- _ => rewrite H; clear H end. reflexivity.
+  Qed.
+  Lemma valid_nodate_of_valid f : valid f = true -> valid_nodate f = true.
+  Proof.
+    unfold valid_nodate, valid. intros H. repeat (apply andb_prop in H; destruct H as [H ?]).
+    assert (Hd : (1 <=? f_month f) && (f_month f <=? 12) && (1 <=? f_day f) && (f_day f <=? 31) = true).
+    { unfold valid_ymd in H. repeat (apply andb_prop in H; destruct H as [H ?]).
+      assert (f_day f <= 31); [|lia].
+      unfold days_in_month in *. destruct (f_month f =? 2); [destruct (is_leap (f_year f)); lia|].
+      destruct ((f_month f =? 4) || (f_month f =? 6) || (f_month f =? 9) || (f_month f =? 11)); lia. }
+    rewrite Hd. repeat match goal with H : _ = true |- _ => rewrite H; clear H end. reflexivity.
+  Qed.
+
+  (** ** exact acceptance: for every well-formed UTF-8 string the reader returns the denoted value
+      when the string is in the grammar with valid fields, and an error value otherwise; it never
+      traps *)
+  Theorem parse_exact s : utf8_valid s = true ->
+    exists r, parse_from_rfc3339 s = Val r /\
+      match accepts s with
+      | Some v => exists a, r = POk a /\ tuple_of a = v
+      | None => exists e, r = PErr e
+      end.
+  Proof.
+    intros Hv. unfold parse_from_rfc3339. rewrite parse_rfc3339_ok by exact Hv.
+    destruct (scan_pure s) as [[p rest]|e] eqn:Es.
+    - cbn [pbind bind]. pose proof (scan_pure_sound s p rest Hv Es) as Hs.
+      destruct (recognise_prefix s) as [[f rest']|] eqn:Er; [|contradiction].
+      destruct Hs as (-> & Hvn & -> & Hwf).
+      unfold accepts, recognise. rewrite Er.
+      destruct rest as [|c rest].
+      + cbn [is_empty negb]. pose proof (to_datetime_ok f Hwf Hvn) as Ht.
+        rewrite (valid_split f Hvn).
+        destruct (valid_ymd (f_year f) (f_month f) (f_day f)).
+        * destruct Ht as (a & Ha & Htu). exists (POk a). split; [exact Ha|]. exists a. split; [reflexivity|exact Htu].
+        * exists (PErr OutOfRange). split; [exact Ht|]. exists OutOfRange. reflexivity.
+      + cbn [is_empty negb]. exists (PErr TooLong). split; [reflexivity|]. exists TooLong. reflexivity.
+    - cbn [pbind bind]. exists (PErr e). split; [reflexivity|].
+      destruct (accepts s) as [v|] eqn:Ea; [exfalso|exists e; reflexivity].
+      unfold accepts, recognise in Ea.
+      destruct (recognise_prefix s) as [[f rest]|] eqn:Er; [|discriminate].
+      destruct rest; [|discriminate]. destruct (valid f) eqn:Evf; [|discriminate].
+      pose proof (scan_pure_complete s f [] Hv Er (valid_nodate_of_valid f Evf)) as Hc.
+      rewrite Hc in Es. discriminate.
+  Qed.
+End WithDateFacts.
